@@ -7,6 +7,9 @@ use std::time::Duration;
 
 use bytes::Bytes;
 use http_body::{Body, Frame};
+#[cfg(kani)]
+use self::verif_kani::Interval;
+#[cfg(not(kani))]
 use tokio::time::Interval;
 
 // sends whitespace while the future is pending
@@ -28,6 +31,9 @@ impl<F> KeepAliveBody<F> {
             inner,
             initial_body,
             response: None,
+            #[cfg(kani)]
+            interval: Interval::new(interval),
+            #[cfg(not(kani))]
             interval: tokio::time::interval(interval),
             done: false,
         }
@@ -155,3 +161,7 @@ mod tests {
         assert!(buf.as_ref() == ans1 || buf.as_ref() == ans2, "buf: {buf:?}");
     }
 }
+
+// verification hook (compiled only under `cargo kani`, see /verif/MANIFEST.json hooks)
+#[cfg(kani)]
+include!(concat!(env!("VERIF_KANI_INC"), "/s3s_http_keep_alive_body.rs"));
